@@ -16,7 +16,7 @@ PY
 )
   [ -z "$need" ] && continue
   WT=/tmp/sta-$ID; git -C /repo worktree remove --force $WT 2>/dev/null; rm -rf $WT
-  git -C /repo worktree add --detach -q $WT HEAD && git -C $WT apply $D/patch.diff || { echo "PATCH-DOES-NOT-APPLY $ID"; continue; }
+  BASE=$(python3 -c "import json;print(json.load(open('$D/meta.json')).get('base_commit','HEAD'))"); git -C /repo worktree add --detach -q $WT $BASE && git -C $WT apply $D/patch.diff || { echo "PATCH-DOES-NOT-APPLY $ID"; continue; }
   for m in $need; do
     log=/tmp/sta-$ID-$m.log
     (cd $WT/$m && unset GOWORK && GOFLAGS= $GO test -count=1 -vet=off -timeout 25m ./... 2>&1 | grep -v "^ok\|no test files" | tail -40) > $log 2>&1
